@@ -178,3 +178,90 @@ Proof.
   - intros k v. pose proof (smap_set_spec k v s Hi) as H. destruct (smap_set k v s) as [s' nw]. destruct H as [_ [_ H]]. exact H.
   - intros k. pose proof (smap_delete_spec k s Hi) as H. destruct (smap_delete k s) as [s' rm]. destruct H as [_ [_ H]]. exact H.
 Qed.
+
+(* ---- persistent use of Set: a pool of set values; derived sets are new values, the bases stay in use ---- *)
+Inductive pop_ :=
+| PoNew | PoOf (vs : list bytes) | PoAddInPlace (i : nat) (vs : list bytes)
+| PoAdded (i : nat) (vs : list bytes) | PoWithout (i : nat) (vs : list bytes) | PoDiff (i j : nat).
+Definition pget (i : nat) (pool : list set) : set := nth i pool set_empty.
+Definition rget (i : nat) (pool : list (list bytes)) : list bytes := nth i pool [].
+Definition pstep (pool : list set) (o : pop_) : list set :=
+  match o with
+  | PoNew => pool ++ [set_empty]
+  | PoOf vs => pool ++ [set_add vs set_empty]
+  | PoAddInPlace i vs => upd i (set_add vs (pget i pool)) pool          (* the only op that changes an existing value *)
+  | PoAdded i vs => pool ++ [set_add vs (pget i pool)]
+  | PoWithout i vs => pool ++ [set_without vs (pget i pool)]
+  | PoDiff i j => pool ++ [set_diff (pget i pool) (pget j pool)]
+  end.
+Definition prstep (pool : list (list bytes)) (o : pop_) : list (list bytes) :=
+  match o with
+  | PoNew => pool ++ [[]]
+  | PoOf vs => pool ++ [ref_add [] vs]
+  | PoAddInPlace i vs => upd i (ref_add (rget i pool) vs) pool
+  | PoAdded i vs => pool ++ [ref_add (rget i pool) vs]
+  | PoWithout i vs => pool ++ [ref_without (rget i pool) vs]
+  | PoDiff i j => pool ++ [filter (fun e => negb (mem e (rget j pool))) (rget i pool)]
+  end.
+
+Lemma pget_inv pool i : Forall set_inv pool -> set_inv (pget i pool).
+Proof.
+  intros H. unfold pget. destruct (nth_in_or_default i pool set_empty) as [Hin|Hd].
+  - rewrite Forall_forall in H. apply H. exact Hin.
+  - rewrite Hd. apply set_empty_inv.
+Qed.
+
+Lemma pget_slice pool i : set_slice (pget i pool) = rget i (map set_slice pool).
+Proof. unfold pget, rget. change (@nil bytes) with (set_slice set_empty). apply eq_sym, map_nth. Qed.
+
+Lemma map_upd {A B} (f : A -> B) i v (l : list A) : map f (upd i v l) = upd i (f v) (map f l).
+Proof. revert i; induction l as [|x l IH]; intros [|i]; cbn; try reflexivity. rewrite IH. reflexivity. Qed.
+
+Lemma Forall_upd {A} (P : A -> Prop) i v (l : list A) : Forall P l -> P v -> Forall P (upd i v l).
+Proof.
+  intros Hl Hv. revert i; induction Hl as [|x l Hx Hl IH]; intros [|i]; cbn; try constructor; auto.
+Qed.
+
+Lemma pstep_inv pool o : Forall set_inv pool ->
+  Forall set_inv (pstep pool o) /\ map set_slice (pstep pool o) = prstep (map set_slice pool) o.
+Proof.
+  intros H. destruct o as [|vs|i vs|i vs|i vs|i j]; cbn [pstep prstep].
+  - split; [apply Forall_app; split; [exact H|constructor; [apply set_empty_inv|constructor]]|rewrite map_app; reflexivity].
+  - destruct (set_add_spec vs set_empty set_empty_inv) as [H1 H2].
+    split; [apply Forall_app; split; [exact H|constructor; [exact H1|constructor]]|rewrite map_app; cbn [map]; rewrite H2; reflexivity].
+  - destruct (set_add_spec vs (pget i pool) (pget_inv pool i H)) as [H1 H2].
+    split; [apply Forall_upd; assumption|rewrite map_upd, H2, pget_slice; reflexivity].
+  - destruct (set_add_spec vs (pget i pool) (pget_inv pool i H)) as [H1 H2].
+    split; [apply Forall_app; split; [exact H|constructor; [exact H1|constructor]]|rewrite map_app; cbn [map]; rewrite H2, pget_slice; reflexivity].
+  - destruct (set_without_spec vs (pget i pool) (pget_inv pool i H)) as [H1 H2].
+    split; [apply Forall_app; split; [exact H|constructor; [exact H1|constructor]]|rewrite map_app; cbn [map]; rewrite H2, pget_slice; reflexivity].
+  - destruct (set_diff_spec (pget i pool) (pget j pool) (pget_inv pool i H) (pget_inv pool j H)) as [H1 H2].
+    split; [apply Forall_app; split; [exact H|constructor; [exact H1|constructor]]|rewrite map_app; cbn [map]; rewrite H2, !pget_slice; reflexivity].
+Qed.
+
+(* every member of the pool, at every moment, lists exactly its own reference (first-insertion order, no duplicates), and
+   Has is membership in it -- whatever was derived from it or from its siblings in the meantime *)
+Theorem set_pool_history : forall ops,
+  let pool := fold_left pstep ops [] in
+  let rpool := fold_left prstep ops [] in
+  map set_slice pool = rpool /\
+  forall i s, nth_error pool i = Some s ->
+    NoDup (set_slice s) /\ (forall v, set_has v s = true <-> In v (set_slice s)) /\ set_size s = length (set_slice s).
+Proof.
+  intros ops. assert (H : forall pool, Forall set_inv pool ->
+     Forall set_inv (fold_left pstep ops pool) /\ map set_slice (fold_left pstep ops pool) = fold_left prstep ops (map set_slice pool)).
+  { induction ops as [|o ops IH]; intros pool Hp; [split; [exact Hp|reflexivity]|]. cbn [fold_left].
+    destruct (pstep_inv pool o Hp) as [H1 H2]. rewrite <- H2. apply IH. exact H1. }
+  destruct (H [] (Forall_nil _)) as [Hinv Hsl]. cbv zeta. split; [exact Hsl|].
+  intros i s Hn. rewrite Forall_forall in Hinv. pose proof (Hinv s (nth_error_In _ _ Hn)) as Hs.
+  split; [exact (proj1 Hs)|]. split; [intros v; apply set_has_spec; exact Hs|apply set_size_spec].
+Qed.
+
+(* deriving a set (Added / Without / Diff / NewSet / SetOf) leaves every existing set value exactly as it was *)
+Theorem set_values_immutable_gen : forall pool o i s,
+  (forall k vs, o <> PoAddInPlace k vs) -> nth_error pool i = Some s -> nth_error (pstep pool o) i = Some s.
+Proof.
+  intros pool o i s Hno Hn. destruct o as [|vs|k vs|k vs|k vs|k j]; cbn [pstep];
+    try (rewrite nth_error_app1; [exact Hn|apply nth_error_Some; congruence]).
+  exfalso. exact (Hno k vs eq_refl).
+Qed.
